@@ -1364,13 +1364,46 @@ func c17NoColorValue(v ssa.Value, d int) bool {
 		flag := false
 		nEnv := 0
 		cd := ssau.ControlDeps(x.Parent())
+		isEnvPresent := func(v ssa.Value) bool {
+			ex, ok := v.(*ssa.Extract)
+			if !ok || ex.Index != 1 {
+				return false
+			}
+			call, ok := ex.Tuple.(*ssa.Call)
+			if !ok || ssau.CallName(call) != "os.LookupEnv" {
+				return false
+			}
+			s, _ := ssau.ConstString(call.Common().Args[0])
+			return s == "NO_COLOR"
+		}
 		for i, e := range x.Edges {
 			if c17NoColorValue(e, d+1) {
 				flag = true
 				continue
 			}
+			// flag || present: the "present" result of the lookup itself
+			if isEnvPresent(e) {
+				nEnv++
+				continue
+			}
 			if !ssau.IsConstBool(e, true) {
 				return false
+			}
+			// ... and the constant true arriving where the flag was found set
+			{
+				p := x.Block().Preds[i]
+				viaFlag := false
+				if iff, ok := p.Instrs[len(p.Instrs)-1].(*ssa.If); ok && c17NoColorValue(iff.Cond, 1) {
+					for k, sc := range p.Succs {
+						if sc == x.Block() && k == 0 {
+							viaFlag = true
+						}
+					}
+				}
+				if viaFlag {
+					flag = true
+					continue
+				}
 			}
 			// the constant arrives only where NO_COLOR was found in the environment
 			env := false
@@ -1529,6 +1562,11 @@ func c17Colour(c *Ctx, run *ssa.Function) {
 						continue
 					}
 				}
+			}
+			// the whole decision computed first and stored once: flag || present
+			if _, isPhi := st.Val.(*ssa.Phi); isPhi && c17NoColorValue(st.Val, 0) {
+				flagSrc, envSrc = true, true
+				continue
 			}
 			if ssau.IsConstBool(st.Val, true) {
 				var env *ssa.Call
